@@ -13,11 +13,12 @@
 (*                                                                         *)
 (* Laws (module Literals):                                                 *)
 (*  parse row: IntDenote(w, lit) is defined (the generator stays inside    *)
-(*      the representable range) and the parsed integer is a value of iW   *)
-(*      with the same two's-complement pattern at width w ("in-range",     *)
-(*      "parse-value"); "parse-exact" additionally reports rows where the  *)
-(*      integer differs although the pattern agrees (informational: 255    *)
-(*      and -1 are the same i8).                                           *)
+(*      the representable range), the parsed integer is a value of iW      *)
+(*      ("in-range") with the same two's-complement pattern at width w     *)
+(*      ("parse-value"), and it is exactly the integer the notation        *)
+(*      denotes ("parse-exact": i5 s0x1F is -1, not 31; i8 255 is 255, not *)
+(*      -1 -- the property's "mathematically correct value", and the       *)
+(*      signed reading is the whole point of the s0x notation).            *)
 (*  print row: the printed literal is an integer literal of the grammar    *)
 (*      that denotes, at width w, a value with the pattern of the constant *)
 (*      printed -- whatever notation the printer chose ("print-value").    *)
@@ -53,7 +54,7 @@ ParseRowOK(i) ==
        /\ d.ok                                                      \/ Bad("literal-outside-quantifier", i)
        /\ (d.ok /\ Representable(r.w, v) => Pattern(r.w, ValOf(d)) = Pattern(r.w, v))
                                                                     \/ Bad("parse-value", i)
-       /\ (d.ok /\ ValOf(d) # v => Info("parse-exact", i))
+       /\ (d.ok => ValOf(d) = v)                                      \/ Bad("parse-exact", i)
 
 PrintRowOK(i) ==
   LET r == Trace[i]   v == RowVal(r) IN
